@@ -4,7 +4,9 @@
 mod attrs;
 mod cmapio;
 mod fmt;
+mod geo;
 mod grid;
+mod k2;
 mod s2;
 mod s3;
 
@@ -40,6 +42,9 @@ fn main() {
 }
 
 fn step(sess: &mut Sess, toks: &[&str]) -> String {
+    if let Some(r) = geo::step(toks) {
+        return r;
+    }
     if let Some(r) = cmapio::step(sess, toks) {
         return r;
     }
